@@ -84,11 +84,20 @@ Section DagInv.
   Lemma branch_ends_false n : branch_ends_of n false = flat_map b_ends (n_branches n).
   Proof. unfold branch_ends_of. apply flat_map_ext. intros b. reflexivity. Qed.
 
+  Lemma eval_branches_skipped_csucc n out sel sk t :
+    eval_branches V ops n out = Ok (sel, sk) -> In t sk -> ~ In t (n_csucc n).
+  Proof.
+    unfold eval_branches. destruct (forallb _ _); [|discriminate]. intros [= <- <-] Hin.
+    apply nodup_In in Hin. apply filter_In in Hin. destruct Hin as [_ Hns].
+    apply andb_true_iff in Hns. destruct Hns as [_ Hns]. apply negb_true_iff in Hns. now apply memb_false in Hns.
+  Qed.
+
   Lemma eval_branches_skipped n out sel sk t :
     eval_branches V ops n out = Ok (sel, sk) -> In t sk -> In t (branch_ends_of n false) /\ ~ In t sel.
   Proof.
     unfold eval_branches. destruct (forallb _ _); [|discriminate]. intros [= <- <-] Hin.
     apply nodup_In in Hin. apply filter_In in Hin. destruct Hin as [Hin Hns].
+    apply andb_true_iff in Hns. destruct Hns as [Hns _].
     apply negb_true_iff in Hns. apply memb_false in Hns. split; [|assumption].
     rewrite branch_ends_false. apply in_flat_map in Hin. destruct Hin as ([b s] & Hb & Ht).
     apply in_map_iff in Hb. destruct Hb as (b' & [= <- <-] & Hb'). simpl in Ht.
@@ -703,7 +712,7 @@ Section DagInv.
 
   Lemma get_all_inv cs R G cs' ready :
     Inv cs R G [] -> orph cs -> NoDup G -> get_all V ops g cs = Ok (cs', ready) ->
-    (alookup kEND ready = None -> Inv cs' R (G ++ akeys ready) []) /\ sk_mono cs cs' /\ NoDup (G ++ akeys ready)
+    ((alookup kEND ready = None \/ exists q, gpred kEND q) -> Inv cs' R (G ++ akeys ready) []) /\ sk_mono cs cs' /\ NoDup (G ++ akeys ready)
     /\ (forall t, In t (akeys ready) <-> exists c, alookup t cs = Some c /\ dag_ready V c = true).
   Proof.
     intros HI Ho Hnd Hg.
@@ -775,7 +784,8 @@ Section DagInv.
           assert (Hex : exists p, gpred t p).
           { destruct (gpred_dec t) as [?|Hnone]; [assumption|]. exfalso.
             assert (HtE : t <> kEND).
-            { intros ->. apply alookup_none in HnoEnd. apply HnoEnd. apply Hready. eauto. }
+            { intros ->. destruct HnoEnd as [HnoEnd|(q & Hq)]; [|exact (Hnone q Hq)].
+              apply alookup_none in HnoEnd. apply HnoEnd. apply Hready. eauto. }
             pose proof (Ho t c HtE E Hnone) as S. apply dag_ready_iff in Hr; [|apply (Hall t c E)]. destruct Hr as (Hr & _). congruence. }
           split; [assumption|].
           intros p Hp. pose proof (ready_reported t c p (Hall t c E) Hr Hp) as Hrep.
